@@ -65,3 +65,18 @@ Qed.
 (* two different values of one answer are different *)
 Lemma values_distinct_within b sfx r i j : 0 <= b -> i < j -> snd (value_of b sfx r j) < snd (value_of b sfx r i).
 Proof. intros Hb Hij. cbn [value_of snd]. apply differentiate_mono; [exact Hb|lia]. Qed.
+
+(* the Global allocator's width grows when dc-locations join and never shrinks (GetSuffixBits = CalSuffixBits of a maximum
+   that is only ever raised; the plain path of GenerateTSO uses it too): a later, larger raw value differentiated with an
+   equal or larger width is larger - also for the first value of a later batch *)
+Lemma differentiate_mono_width x y b1 b2 : 0 <= b1 <= b2 -> 0 <= x < y -> differentiate x b1 0 < differentiate y b2 0.
+Proof.
+  intros [Hb1 Hb12] [Hx Hxy]. rewrite !differentiate_eq by lia. rewrite !Z.add_0_r.
+  assert (H1 : 0 < 2 ^ b1) by (apply Z.pow_pos_nonneg; lia).
+  assert (H2 : 2 ^ b1 <= 2 ^ b2) by (apply Z.pow_le_mono_r; lia).
+  nia.
+Qed.
+
+(* ... and it is false when the width shrinks: raw 52 at width 2 is 208, raw 53 at width 0 is 53 *)
+Example width_must_not_shrink : differentiate 52 2 0 = 208 /\ differentiate 53 0 0 = 53.
+Proof. split; reflexivity. Qed.
